@@ -38,6 +38,11 @@ func genC13(seed uint64, tier string) *Plan {
 	if r.chance(0.3) {
 		p.Knobs["behaviour_weight"] = -1
 	}
+	if r.chance(0.3) {
+		// the node's attempts to open a stream to a peer fail now and then (first opens and re-opens
+		// after a stream loss alike)
+		p.Knobs["p_open_fail"] = []float64{0.15, 0.4, 0.8}[r.intn(3)]
+	}
 	if r.chance(0.5) { // application validators that park, reject, ignore
 		p.Knobs["nval_default"] = float64(r.rng(0, 2))
 		p.Knobs["topic_val"] = float64(b2i(r.chance(0.6)))
